@@ -185,8 +185,9 @@ func (g *gen) runSupply() {
 	}
 	opJump()
 	g.opRepeatOverdraw()
+	g.opAliasRoleHolder()
 	g.loop([]wop{
-		{3, g.opRepeatOverdraw}, {1, opJump}, {16, g.opMint}, {14, g.opLocalBurn}, {12, g.opESDTBurn}, {12, g.opCreate}, {14, g.opAddQty}, {14, g.opNFTBurn},
+		{2, g.opAliasRoleHolder}, {3, g.opRepeatOverdraw}, {1, opJump}, {16, g.opMint}, {14, g.opLocalBurn}, {12, g.opESDTBurn}, {12, g.opCreate}, {14, g.opAddQty}, {14, g.opNFTBurn},
 		{5, g.opFreezeThenWipe}, {4, g.opTransfer}, {4, g.opNFTTransfer}, {3, g.opMulti}, {4, g.lateNetwork}, {2, g.opAlias}, {3, g.opUnfrozenDrain},
 	})
 }
@@ -235,8 +236,9 @@ func (g *gen) runGates() {
 	g.setupWorld(worldOpts{activation: 0, epoch: 1})
 	g.standardState()
 	g.widenRoles()
+	g.opPauseSpelled()
 	g.loop([]wop{
-		{14, g.opFreezeToggle}, {9, g.opPauseToggle},
+		{2, g.opPauseSpelled}, {14, g.opFreezeToggle}, {9, g.opPauseToggle},
 		{10, g.opTransfer}, {10, g.opNFTTransfer}, {12, g.opMulti}, {5, g.opMint}, {5, g.opLocalBurn}, {4, g.opESDTBurn},
 		{4, g.opCreate}, {4, g.opAddQty}, {4, g.opNFTBurn}, {2, g.opAddURI}, {2, g.opUpdateAttr},
 		{6, g.opFullQuantity}, {4, g.opRAE}, {12, g.lateNetwork}, {1, g.opPayableFlip}, {3, g.opSysTransfer}, {3, g.opUnfrozenDrain},
@@ -486,6 +488,44 @@ func (g *gen) opAccountFns() bool {
 	return true
 }
 
+// opNearMissOwner: a contract is handed (by its rightful owner) to an address O, then an address O' that is NOT O but
+// "almost" O tries to take it over and to claim its rewards, then O hands it back. The near misses are the ones a
+// comparison other than byte equality confuses: letters differing in case only, bytes that are invalid UTF-8 on both
+// sides, an address equal up to its last-but-one byte, a proper prefix. No random choice beyond the pick.
+func (g *gen) opNearMissOwner() bool {
+	c := g.pick(g.contracts)
+	acc := g.acct(c)
+	if acc == nil || len(acc.Owner()) != 32 {
+		return false
+	}
+	owner := append([]byte{}, acc.Owner()...)
+	rep := func(b byte) []byte {
+		a := bytes.Repeat([]byte{b}, 32)
+		a[31] = owner[31]
+		return a
+	}
+	tail := rep('q')
+	tail[30] = 'r'
+	mixed := append([]byte("ownrOWNR"), bytes.Repeat([]byte{0xc3}, 24)...)
+	mixed[31] = owner[31]
+	mixed2 := append([]byte("OWNRownr"), bytes.Repeat([]byte{0xe9}, 24)...)
+	mixed2[31] = owner[31]
+	for _, p := range [][2][]byte{{rep('o'), rep('O')}, {rep(0xa1), rep(0xb2)}, {rep('q'), tail}, {mixed, mixed2}} {
+		o, near := p[0], p[1]
+		g.do(g.user(oracle.FnChangeOwner, owner, c, bigGas, o))
+		g.do(g.user(oracle.FnChangeOwner, near, c, bigGas, near))
+		sp := g.user(oracle.FnChangeOwner, near, c, bigGas, near)
+		if sh := g.shardOf(c); sh >= 0 {
+			sp.shard = sh // and as the destination half of a cross-shard call
+		}
+		g.do(sp)
+		g.do(g.user(oracle.FnClaim, near, c, bigGas))
+		g.do(g.user(oracle.FnChangeOwner, o[:31], c, bigGas, near))
+		g.do(g.user(oracle.FnChangeOwner, o, c, bigGas, owner))
+	}
+	return true
+}
+
 // liveProtectedKeys lists protected keys that exist in the account (token / role / nonce keys).
 func (g *gen) liveProtectedKeys(a []byte) [][]byte {
 	var out [][]byte
@@ -537,8 +577,9 @@ func (g *gen) runAuthority() {
 	}
 	g.distribute(2 * len(g.accounts))
 	g.opWideCreate()
+	g.opNearMissOwner()
 	g.loop([]wop{
-		{14, g.opRoleSubset(wild)}, {6, g.opUnsetRoles(wild)}, {30, g.opGatedByAnyone}, {12, g.opPrivilegedByUser}, {3, g.opWideCreate},
+		{1, g.opNearMissOwner}, {14, g.opRoleSubset(wild)}, {6, g.opUnsetRoles(wild)}, {30, g.opGatedByAnyone}, {12, g.opPrivilegedByUser}, {3, g.opWideCreate},
 		{6, g.opHandOver}, {10, g.opAccountFns}, {8, g.opSKVProtected}, {4, g.opNFTTransfer}, {3, g.opTransfer}, {5, g.lateNetwork},
 	})
 }
@@ -923,8 +964,42 @@ func (g *gen) runNonces() {
 		}
 		return true
 	}
+	// opRevokeRegrant: the system contract takes ALL the roles of a token's creator away (one call, then the roles one by
+	// one on the next turn), gives them back, and the creator creates again: the counter lives with the account, not with
+	// the role list, so the next nonce continues where it stopped
+	revokeTurn := 0
+	opRevokeRegrant := func() bool {
+		toks := append(append([][]byte{}, g.sft...), g.nft...)
+		var tok, a []byte
+		for i, o := 0, g.r.Intn(len(toks)); i < len(toks) && a == nil; i++ {
+			if t := toks[(o+i)%len(toks)]; !g.handOverInFlight(t) {
+				tok, a = t, g.creatorOf(t)
+			}
+		}
+		if a == nil {
+			return false
+		}
+		roles := g.rolesOf(a, tok)
+		var rb [][]byte
+		for _, r := range roles {
+			rb = append(rb, []byte(r))
+		}
+		revokeTurn++
+		if revokeTurn%2 == 1 {
+			g.do(g.sys(oracle.FnUnSetRole, a, append([][]byte{tok}, rb...)...))
+		} else {
+			for _, r := range rb {
+				g.do(g.sys(oracle.FnUnSetRole, a, tok, r))
+			}
+		}
+		g.do(g.sys(oracle.FnSetRole, a, append([][]byte{tok}, rb...)...))
+		g.do(g.user(oracle.FnNFTCreate, a, a, bigGas, g.createArgs(tok, 1, 1)...))
+		return true
+	}
+	opRevokeRegrant()
+	opRevokeRegrant()
 	g.loop([]wop{
-		{34, g.opCreate}, {12, g.opNFTBurn}, {12, g.opNFTTransfer}, {6, g.opMulti}, {14, opHandOverLate}, {2, opSeedCounter}, {1, opJumpExisting},
+		{2, opRevokeRegrant}, {34, g.opCreate}, {12, g.opNFTBurn}, {12, g.opNFTTransfer}, {6, g.opMulti}, {14, opHandOverLate}, {2, opSeedCounter}, {1, opJumpExisting},
 		{5, g.opAddQty}, {4, g.opFullQuantity}, {10, g.lateNetwork},
 	})
 }
@@ -1255,7 +1330,7 @@ func (g *gen) runAdversarial() {
 	}
 	g.opWideNonceOnFungible()
 	opEmptyElements()
-	g.loop([]wop{{3, g.opWideNonceOnFungible}, {54, g.opAdversarial}, {18, g.opSemiValid}, {4, opRoles}, {6, g.opAlias}, {3, g.opAliasTokens}, {4, g.opMulti}, {3, g.opNFTTransfer}, {3, g.opTransfer}, {8, g.lateNetwork}, {3, g.opThinSecondLeg}, {3, opEmptyElements}})
+	g.loop([]wop{{3, g.opWideNonceOnFungible}, {54, g.opAdversarial}, {18, g.opSemiValid}, {4, opRoles}, {6, g.opAlias}, {3, g.opAliasTokens}, {2, g.opAliasRoleHolder}, {4, g.opMulti}, {3, g.opNFTTransfer}, {3, g.opTransfer}, {8, g.lateNetwork}, {3, g.opThinSecondLeg}, {3, opEmptyElements}})
 }
 
 // ---------------------------------------------------------------------------
